@@ -25,7 +25,9 @@ SimShapes == {[h |-> 5, w |-> 1, hint |-> 1], [h |-> 9, w |-> 5, hint |-> 1], [h
               [h |-> 8, w |-> 8, hint |-> 0], [h |-> 9, w |-> 8, hint |-> 0], [h |-> 64, w |-> 64, hint |-> 0], [h |-> 65, w |-> 65, hint |-> 0],
               [h |-> 130, w |-> 130, hint |-> 0],
               \* more than five words per row
-              [h |-> 360, w |-> 352, hint |-> 1]}
+              [h |-> 360, w |-> 352, hint |-> 1],
+              \* tall matrices whose tail crosses a word boundary only in the SECOND indexed phase (after a resize)
+              [h |-> 300, w |-> 100, hint |-> 28], [h |-> 260, w |-> 130, hint |-> 92]}
 Rnd(S) == RandomElement(S)
 Log(op) == v_hist' = Append(v_hist, op)
 SetSeq(S) == LET RECURSIVE f(_) f(T) == IF T = {} THEN <<>> ELSE LET x == CHOOSE y \in T : \A z \in T : y <= z IN <<x>> \o f(T \ {x}) IN f(S)
@@ -108,7 +110,7 @@ StepSetTail ==
   /\ \E i \in Pick(Rows), j \in Pick(SparseW..(v_w-1)), v \in Pick({0, 1}) : Set(i, j, v) /\ Log([op |-> "set", i |-> i, j |-> j, v |-> v])
 
 IndexedStep ==
-  /\ v_phase = "indexed" /\ v_left > 0
+  /\ v_phase \in {"indexed", "indexed2"} /\ v_left > 0
   /\ \/ StepSwapRows \/ StepSwapCols \/ StepColumnQuery \/ StepAddSingle \/ StepAddSingle
      \/ StepFreeze \/ StepFreeze \/ StepFreeze \/ StepRange \/ StepTail \/ StepGet \/ StepSetTail \/ StepTailDense
   /\ v_left' = v_left - 1 /\ UNCHANGED v_phase
@@ -119,7 +121,9 @@ EndIndexed ==
 
 DoResize ==
   /\ v_phase = "resize"
-  /\ \E w2 \in Pick({v_w} \cup (IF SparseW >= 1 THEN 1..SparseW ELSE {})) : \E h2 \in Pick(w2..v_h) :
+  \* half of the resizes keep the width (the solver's A.resize(L, L)), the others drop the dense tail and possibly more
+  /\ \E kw \in Pick(0..1), w0 \in Pick({v_w} \cup (IF SparseW >= 1 THEN 1..SparseW ELSE {})) :
+     \E w2 \in {IF kw = 0 THEN v_w ELSE w0} : \E h2 \in Pick(w2..v_h) :
         /\ EnabledResize(h2, w2)
         /\ Resize(h2, w2)
         /\ v_hist' = Append(Append(v_hist, [op |-> "resize", h |-> h2, w |-> w2]), Snapshot)
@@ -134,11 +138,20 @@ FreeStep ==
   /\ v_phase = "free" /\ v_left > 0
   /\ \/ StepAddFree \/ StepAddFree \/ StepSetAny \/ StepGet \/ StepTail \/ StepSwapRows \/ StepTailDense \/ StepTailDense
   /\ v_left' = v_left - 1 /\ UNCHANGED v_phase
+\* after the un-indexed phase the column index may be switched on again (the interface allows it at any time): a second,
+\* shorter indexed phase on the resized matrix, then a final snapshot
 EndFree ==
   /\ v_phase = "free" /\ v_left = 0
-  /\ UNCHANGED mvars /\ Log(Snapshot) /\ v_phase' = "done" /\ UNCHANGED v_left
+  \* (only when no columns were dropped: indexing again after a width-shrinking resize is outside the contract, DESIGN Appendix C)
+  /\ IF EnabledIndex /\ v_w = v_hist[1].w
+     THEN Index /\ v_hist' = Append(Append(v_hist, Snapshot), [op |-> "index"]) /\ v_phase' = "indexed2" /\ v_left' = 60
+     ELSE UNCHANGED mvars /\ Log(Snapshot) /\ v_phase' = "done" /\ UNCHANGED v_left
+EndIndexed2 ==
+  /\ v_phase = "indexed2" /\ v_left = 0
+  /\ Unindex /\ v_hist' = Append(Append(v_hist, [op |-> "unindex"]), Snapshot)
+  /\ v_phase' = "done" /\ UNCHANGED v_left
 
-SimNext == Fill \/ DoIndex \/ IndexedStep \/ EndIndexed \/ DoResize \/ FreeStep \/ EndFree
+SimNext == Fill \/ DoIndex \/ IndexedStep \/ EndIndexed \/ DoResize \/ FreeStep \/ EndFree \/ EndIndexed2
 SimSpec == SimInit /\ [][SimNext]_vars
 Emit == v_phase = "done" => PrintT(ToJson([ops |-> v_hist]))
 
